@@ -94,12 +94,27 @@ def grid_case(ctx, idx, rng):
   with np.errstate(all='ignore'):
     xo = (rng.uniform(-4, 4, size=(1, 129)) * span).astype(xdt0)
     xo = np.concatenate([xo, np.array([[-(qmax + 3) * step, -(qmax + 1) * step, -qmax * step, (qmax + 2) * step]], dtype=xdt0)], axis=1)
+    # finite outliers astronomically far outside the range (x/scale beyond 2**63) must still saturate to the nearest end
+    fmax = float(np.finfo(xdt0).max)
+    far = [v for v in (1e19 * step, 1e25 * step, 1e20, 1e30, fmax / 4, fmax) if np.isfinite(v) and v < fmax * 1.0000001]
+    xo = np.concatenate([xo, np.array([far + [-v for v in far]], dtype=xdt0)], axis=1)
   xo = xo[np.isfinite(xo)].reshape(1, -1)
   if xo.size:
-    qo = u.uniform_quantize(xo, p)
+    with np.errstate(all='ignore'):
+      qo = u.uniform_quantize(xo, p)
     ctx.count('out_of_range_values_checked', xo.size)
     if qo.min() < lo_q or qo.max() > qmax:
       ctx.violation('law:code_out_of_range', {'bits': bits, 'symmetric': sym, 'input': 'beyond_range'}, dict(tag, got=[int(qo.min()), int(qo.max())], allowed=[lo_q, qmax]))
+    order = np.argsort(xo.astype(np.float64), axis=None, kind='stable')
+    qs_ = qo.reshape(-1)[order].astype(np.int64)
+    if np.any(np.diff(qs_) < 0):
+      i = int(np.argmax(np.diff(qs_) < 0))
+      ctx.violation('law:not_monotone', {'bits': bits, 'symmetric': sym, 'input': 'beyond_range'},
+                    dict(tag, x=[float(xo.reshape(-1)[order][i]), float(xo.reshape(-1)[order][i + 1])], q=[int(qs_[i]), int(qs_[i + 1])]))
+    hi_x = xo.astype(np.float64) > (qmax - z0 + 1) * step
+    lo_x = xo.astype(np.float64) < (lo_q - z0 - 1) * step
+    if np.any(qo[hi_x] != qmax) or np.any(qo[lo_x] != lo_q):
+      ctx.violation('law:saturation_to_wrong_end', {'bits': bits, 'symmetric': sym}, dict(tag, n_high=int(hi_x.sum()), n_low=int(lo_x.sum())))
   # random in-range data
   xdt = np.asarray(sc).dtype if np.asarray(sc).dtype.kind == 'f' else np.float32
   x = rng.uniform(min(float(mn), 0), max(float(mx), 0), size=(1, 257)).astype(xdt)
